@@ -3,6 +3,7 @@ import RcVerif.Model.CDecode
 import RcVerif.Spec.KeySlot
 import RcVerif.Model.SimInst
 import RcVerif.Model.Route
+import RcVerif.Model.Cluster
 /-
   Line-protocol driver: one request per input line, one canonical answer per
   output line. Core-only, compiled as `rcdriver`.
@@ -134,10 +135,62 @@ def routeLine (rest : String) : String :=
     | _, _ => "bad-op"
   | _ => "bad-op"
 
+/-! ### cluster: `cluster ev ; ev ...` with `M <hex>` (probe reply) and `K` (tick) -/
+
+/-- INFO of a newly seen node, derived from the last digit of its address (shared with the harness):
+    ...7 loading, ...8 master link down, ...9 unreachable, anything else healthy -/
+def clusterInfo (addr : Bytes) : Option Cluster.Info :=
+  match addr.getLast? with
+  | some 57 => none
+  | some 55 => some { loading := true, linkUp := true }
+  | some 56 => some { loading := false, linkUp := false }
+  | _ => some { loading := false, linkUp := true }
+
+def showNode (n : Cluster.Node) : String :=
+  s!"{toHex n.addr}/{if n.isSlave then 1 else 0}/{hexOrDash n.name}/{hexOrDash n.masterId}/" ++
+    String.intercalate "+" (n.slots.map (fun r => s!"{r.1}-{r.2}"))
+
+def showRState (st : Cluster.RState) : String :=
+  let servers := (st.servers.map showNode).toArray.qsort (· < ·) |>.toList
+  let sets := st.sets.map (fun p => toHex p.1.addr ++ ":" ++ String.intercalate "+" (p.2.map (fun n => toHex n.addr)))
+  s!"alive={if st.alive then 1 else 0} changed={if st.changed then 1 else 0} servers={String.intercalate "," servers} sets={String.intercalate "," sets}"
+
+/-- run-length encoding of the slot table -/
+def showTable (sets : List (Cluster.Node × List Cluster.Node)) (nslots : Nat) : String :=
+  let owners := (List.range nslots).map (fun s => match Cluster.slotTable sets s with
+    | some p => toHex p.1.addr ++ "~" ++ String.intercalate "+" (p.2.map (fun n => toHex n.addr))
+    | none => "-")
+  let runs := owners.foldl (fun (acc : List (String × Nat)) o =>
+    match acc with
+    | (o', n) :: rest => if o = o' then (o', n + 1) :: rest else (o, 1) :: (o', n) :: rest
+    | [] => [(o, 1)]) []
+  String.intercalate "," (runs.reverse.map (fun r => s!"{r.1}x{r.2}"))
+
+def clusterLine (rest : String) : String :=
+  let evs := ((rest.splitOn ";").map String.trimAscii).map (·.toString) |>.filter (· ≠ "")
+  let (_, _, outs) := evs.foldl (fun (acc : Cluster.RState × List (Cluster.Node × List Cluster.Node) × List String) ev =>
+    let (st, tbl, outs) := acc
+    match (ev.splitOn " ").filter (· ≠ "") with
+    | ["M", h] =>
+      match fromHex h with
+      | some msg =>
+        let st' := Cluster.onProbeReply Gen.redisClusterSlots clusterInfo st msg
+        (st', tbl, outs ++ [showRState st'])
+      | none => (st, tbl, outs ++ ["bad-op"])
+    | ["K"] =>
+      if st.changed then
+        let st' := { st with changed := false }
+        let pools := (Cluster.poolsAfterTick st').map (fun p => s!"{toHex p.1}/{if p.2 then 1 else 0}") |>.toArray.qsort (· < ·) |>.toList
+        (st', st.sets, outs ++ [s!"tick pools={String.intercalate "," pools} table={showTable st.sets Gen.redisClusterSlots}"])
+      else (st, tbl, outs ++ ["tick unchanged"])
+    | _ => (st, tbl, outs ++ ["bad-op"])) (({} : Cluster.RState), [], [])
+  String.intercalate " | " outs
+
 def stepLine (line : String) : String :=
   let line := line.trimAscii.toString
   if line.startsWith "sim " then simLine (line.drop 4).toString else
   if line.startsWith "route " then routeLine (line.drop 6).toString else
+  if line.startsWith "cluster " then clusterLine (line.drop 8).toString else
   match (line.trimAscii.toString.splitOn " ").filter (· ≠ "") with
   | ["hash", k] =>
     match fromHex k with
